@@ -16,8 +16,9 @@ func init() {
 		&slip.FuncDoc{
 			Name: "ignore",
 			Args: []*slip.DocArg{
+				{Name: "&rest"},
 				{
-					Name: "name",
+					Name: "names",
 					Type: "symbol",
 					Text: "Names are not evaluated.",
 				},
